@@ -51,8 +51,11 @@ def _f32(x):
 
 
 def isclose(a, b, rel, abs_):
-    a, b, rel, abs_ = Fraction(a), Fraction(b), Fraction(rel), Fraction(abs_)
-    return abs(a - b) <= max(rel * max(abs(a), abs(b)), abs_)
+    """"constants agree within the stated tolerance": math.isclose with the tolerances given in the pattern, on the
+    python float the matcher reads from the tensor (the generators keep 3% away from the bound, where the exact
+    rational reading used by the Coq model gives the same verdict)."""
+    import math
+    return math.isclose(float(a), float(b), rel_tol=float(rel), abs_tol=float(abs_))
 
 
 def const_ok(H, pv, v):
